@@ -47,18 +47,8 @@ package keeper
 //@ import ethtypes "github.com/ethereum/go-ethereum/core/types"
 //@ import evertypes "github.com/EscanBE/evermint/v12/types"
 
-// keeper.go SetBlockHashForCurrentBlockAndPruneOld: trusted summary of the KV-store code. Past genesis the hash of the current
-// block is recorded once per block (first caller wins), the entry 256 blocks back is pruned when it is written; nothing else.
-//@ ghost var evmBlockHash map[int]map[int]bytes
-//@ ghost var evmHasBlockHash map[int]map[int]bool
-//@ layered evmBlockHash, evmHasBlockHash
-//@ func (k Keeper) SetBlockHashForCurrentBlockAndPruneOld(ctx sdk.Context)
-//@   assumed
-//@   modifies evmBlockHash[layer(ctx)], evmHasBlockHash[layer(ctx)]
-//@   ensures ctx.BlockHeight() == 0 ==> (evmBlockHash[layer(ctx)] == old(evmBlockHash[layer(ctx)]) && evmHasBlockHash[layer(ctx)] == old(evmHasBlockHash[layer(ctx)]))
-//@   ensures ctx.BlockHeight() != 0 ==> (evmHasBlockHash[layer(ctx)][ctx.BlockHeight()] && evmBlockHash[layer(ctx)][ctx.BlockHeight()] == (old(evmHasBlockHash[layer(ctx)][ctx.BlockHeight()]) ? old(evmBlockHash[layer(ctx)][ctx.BlockHeight()]) : bytes(ctx.HeaderHash())))
-//@   ensures forall h int :: (h != ctx.BlockHeight() && h != ctx.BlockHeight() - 256) ==> (evmHasBlockHash[layer(ctx)][h] == old(evmHasBlockHash[layer(ctx)][h]) && evmBlockHash[layer(ctx)][h] == old(evmBlockHash[layer(ctx)][h]))
-//@   panics never
+// (SetBlockHashForCurrentBlockAndPruneOld: verified over the KV-store model in verif_contracts.go — it writes only the module's
+// own KV store of this layer)
 
 // receiptsDense(l): every Ethereum transaction counted in the current block has a stored (non-empty) receipt — what
 // GetTxReceiptsTransient (block bloom in EndBlock) needs in order not to panic "receipt not found".
@@ -69,7 +59,7 @@ package keeper
 // layer, same event manager, same header.
 //@ func (k Keeper) SetupExecutionContext(ctx sdk.Context, ethTx *ethtypes.Transaction) (newCtx sdk.Context)
 //@   requires ethTx != nil && txType(ethTx) <= 2 && trCount[layer(ctx)] + 1 < pow2(64)
-//@   modifies trCount[layer(ctx)], trGas[layer(ctx)], trReceipt[layer(ctx)], trHasReceipt[layer(ctx)], evmBlockHash[layer(ctx)], evmHasBlockHash[layer(ctx)]
+//@   modifies trCount[layer(ctx)], trGas[layer(ctx)], trReceipt[layer(ctx)], trHasReceipt[layer(ctx)], kvHas[kvId(layer(ctx), payload(k.storeKey))], kvVal[kvId(layer(ctx), payload(k.storeKey))]
 //@   ensures[C13.setup_same_layer,C05.setup_same_layer] layer(newCtx) == layer(ctx) && hdr(newCtx) == hdr(ctx) && mode(newCtx) == mode(ctx) && newCtx.EventManager() == ctx.EventManager() && newCtx.BlockGasMeter() == ctx.BlockGasMeter()
 //@   ensures[C05.setup_gas_meter] typeof(newCtx.GasMeter()) == type(*evertypes.infiniteGasMeterWithLimit) && fresh(payload(newCtx.GasMeter())) && asptr(payload(newCtx.GasMeter()), type(*evertypes.infiniteGasMeterWithLimit)).limit == txGas(ethTx) && asptr(payload(newCtx.GasMeter()), type(*evertypes.infiniteGasMeterWithLimit)).consumed == 0
 //@   ensures[C13.setup_counter] trCount[layer(ctx)] == old(trCount[layer(ctx)]) + 1
